@@ -46,8 +46,8 @@ def run(ck, rng):
         its = roots[0] if vname.startswith("root") else [it for r in roots for it in r]
         rlist = [roots[0]] if vname.startswith("root") else roots
         doc = spell(items, gen_spelling(rng, items, allow_heading=not massive))
-        target = b"out"
-        pre = [(b"sentinel", "d"), (b"sentinel/keep.txt", "f"), (b"out", "d")]
+        target = rng.choice([b"out", b"out", b"fresh/out", b"newdir"])
+        pre = [(b"sentinel", "d"), (b"sentinel/keep.txt", "f")] + ([(b"out", "d")] if target == b"out" else [])
         if vname == "out":
             dry = "o,d,1,%s,%s,%s,%s" % (rng.choice("01"), bf_csv(bf), exts_plus(exts), hx(doc))
             real = "m,0,%s,%s,-,-,-,-,%s" % (exts_plus(exts), hx(target), hx(doc))
